@@ -449,11 +449,18 @@ class Point(HyperbolicObject, projective.Point):
         # the direction must not depend on which representative of
         # `other` is stored: use the one on the same sheet of the
         # hyperboloid as this point (negative Minkowski product)
-        products = utils.apply_bilinear(self.proj_data, other.proj_data,
+        # the difference is taken between unit representatives (copies:
+        # the stored coordinates are left alone). with representatives
+        # of very different scales the smaller one would be rounded
+        # away in the difference.
+        unit_self = utils.normalize(np.array(self.proj_data), self.minkowski)
+        unit_other = utils.normalize(np.array(other.proj_data), self.minkowski)
+
+        products = utils.apply_bilinear(unit_self, unit_other,
                                         self.minkowski)
         same_sheet = np.where(np.expand_dims(products, axis=-1) > 0, -1, 1)
 
-        diff = same_sheet * other.proj_data - self.proj_data
+        diff = same_sheet * unit_other - unit_self
         return TangentVector(self, diff).normalized()
 
     def get_origin(dimension, shape=(), **kwargs):
